@@ -237,6 +237,8 @@ class FinishedPdu(AbstractFileDirectiveBase):
                 finished_pdu.pdu_file_directive.packet_len, len(data)
             )
         current_idx = finished_pdu.pdu_file_directive.header_len
+        if current_idx + 1 > len(data):
+            raise BytesTooShortError(current_idx + 1, len(data))
         first_param_byte = data[current_idx]
         params = FinishedParams(
             condition_code=ConditionCode((first_param_byte & 0xF0) >> 4),
